@@ -32,7 +32,8 @@ def x_obligations(tier):
         o.append(Obl(f"C09-kernel[{search}]", M, "kernel", env={"VF_SEARCH": search, "VF_PRE": pre, "VF_INDEX": str(idx), "VF_N": "0" if tier == "quick" else "1"}, timeout=T, family="C09-kernel",
                      bound="sorted_search over a stubbed star_search yielding three arbitrary entries with two-segment tails"))
     for (fixed, key, pre, mid, tail) in [("h/a/x/v1/m", "version", "h/a/x/v", "/", "m"), ("h/a/x", "n", "h/a/", "", ""), ("h/s/q1/v1", "version", "h/s/q1/v", "", ""),
-                                         ("h/a/x", "version", "h/a/x/v", "", ""), ("h/s/q1", "ext", "h/s/q1/v1/", "", "")]:      # the last two: a key BELOW the Sid's own last field
+                                         ("h/a/x", "version", "h/a/x/v", "", ""), ("h/s/q1", "ext", "h/s/q1/v1/", "", ""),
+                                         ("h/a/x/v1/b", "version", "h/a/x/v", "/", "m")]:      # the last: no existing entry carries the Sid's own extension -> empty Sid, nothing made up      # the last two: a key BELOW the Sid's own last field
         o.append(Obl(f"C09-get_last[{fixed},{key}]", M, "get_last", env={"VF_FIXED": fixed, "VF_KEY": key, "VF_PRE": pre, "VF_MID": mid, "VF_TAIL": tail, "VF_N": "1"}, timeout=T, family="C09-get_last",
                      bound=f"Sid({fixed!r}).get_last({key!r}) over two symbolic siblings"))
     for (search, pre, mid, tail, tail2) in [("h/s/q1/>/*", "h/s/q1/v", "/", "m", "c"), ("h/a/x/>/*", "h/a/x/v", "/", "g", "b")]:
@@ -41,6 +42,8 @@ def x_obligations(tier):
     for (fixed, key, pre, mid, tail) in [("h/a/x/v1/m", "version", "h/a/x/v", "/", "m"), ("h/s/q1/v1", "version", "h/s/q1/v", "", "")]:
         o.append(Obl(f"C09-get_last-after-change[{fixed},{key}]", M, "get_last_after_change", env={"VF_FIXED": fixed, "VF_KEY": key, "VF_PRE": pre, "VF_MID": mid, "VF_TAIL": tail, "VF_N": "0", "VF_CACHES": "1"}, timeout=T, family="C09-get_last", expect="find",
                      bound="get_last; a sibling is added; get_last again -- spil's caches ON (keys are realised: bug-hunt, exhaustion not expected)"))
+    for s_ in ["h/a/x/>", "h/a/*/>/y", "h/s/q1/>/*"]:
+        o.append(Obl(f"C09-list-twice[{s_}]", M, "list_twice", env={"VF_SEARCH": s_, "VF_CACHES": "1"}, timeout=T, family="C09-list", bound="the same '>' search asked twice of a list Finder, then of another one (spil's caches ON): same answer"))
     o.append(Obl("C09-reach", M, "reach", env={"VF_SEARCH": "h/a/*/>", "VF_PRE": "h/a/", "VF_MID": "/v", "VF_N": "1"}, timeout=150, expect="refute", family="C09-twin"))
     return o
 
